@@ -247,6 +247,12 @@ func runC02(c *Ctx) {
 					if cr.Timeout > 0 && (iv.FinalT+2*time.Millisecond >= deadline || (streaming && deadline <= lastResume)) {
 						continue // the router-side timeout may have ended the call first
 					}
+					if cr.Timeout > 0 && (ce.NetC != nil || ce.WSC != nil) {
+						// over a network transport the YIELD counts as taken when the callee's transport
+						// has it; the router's handler for that callee may get to it much later (it may be
+						// holding back an earlier YIELD of the same callee), after the time-out
+						continue
+					}
 					c.Probe("obligation_result_retry")
 					if st := states[cl][cr.Req]; st == nil || st.finals == 0 {
 						c.Violf("caller %s never received the RESULT of call %s to %s: the callee's final YIELD was taken at %v, the caller (stalled before) was reading again from %v on", cl.Name, cr.Tag, cr.Proc, iv.FinalT, lastResume)
